@@ -178,10 +178,19 @@ class PairWorld(WsWorld):
                 if which in ("both", "client"):
                     r["max_message_size"] = mms
 
+            # (an accept policy written the way the library's examples are: it looks at what the *parsed* offer says the client
+            # can accept, and asks for a client window only then)
+            reads_offer = cfg["accept_reads_offer"] = ch.flag("accept-policy-reads-the-parsed-offer", 0.3)
+
             def s_accept(offers):
                 for of in offers:
                     if isinstance(of, C.PerMessageDeflateOffer):
-                        return C.PerMessageDeflateOfferAccept(of, **a)
+                        aa = dict(a)
+                        if reads_offer:
+                            aa["request_max_window_bits"] = (a["request_max_window_bits"] or 10) if of.accept_max_window_bits else 0
+                            if not of.accept_no_context_takeover:
+                                aa["request_no_context_takeover"] = False
+                        return C.PerMessageDeflateOfferAccept(of, **aa)
 
             def c_accept(resp):
                 rr = dict(r)
